@@ -108,12 +108,12 @@ class SimulateOde(DeterministicOde):
         # 2) The function used to generate the underlying sympy object
         #    (convention: starts with "get_", in previous versions have
         #     started with get_ or _compute)
-        self.add_func("vMat", self.get_StateChangeMatrix)
+        self.add_func("vMat", self.get_StateChangeMatrix, oT="mat")
         self.add_func("eventRateVector", self.get_EventRateVector)
         self.add_func("transitionMean", self.get_TransitionMean)
         self.add_func("transitionVar", self.get_TransitionVar)
         self.add_func("pureOdeVector", self.get_pureOdeVector)
-        self.add_func("transitionJacobian", self.get_TransitionJacobian)
+        self.add_func("transitionJacobian", self.get_TransitionJacobian, oT="mat")
 
     def __repr__(self):
         return "SimulateOde" + self._get_model_str()
